@@ -11,6 +11,7 @@ mod extract;
 mod gen_codes;
 mod gen_fsm;
 mod gen_kernels;
+mod gen_sasl;
 
 use std::path::{Path, PathBuf};
 
@@ -51,6 +52,7 @@ fn main() {
     gen_kernels::generate(&mut src, &mut out);
     gen_codes::generate(&mut src, &mut out);
     gen_fsm::generate(&mut src, &mut out);
+    gen_sasl::generate(&mut src, &mut out);
 
     for w in &out.written {
         println!("rs2lean: {}", w);
